@@ -311,6 +311,12 @@ def check(case):
                            what='log-likelihood for the arrays given as %s' % label)
                 case.close(np.asarray(em.compute_pointwise_ll(a_sig, a_yb, a_y), dtype=float), want_pw, rtol=1e-9,
                            what='pointwise for the arrays given as %s' % label)
+            # model outputs and observations as (n, 1) columns (df[['Value']].to_numpy(), a list of one-element lists)
+            col_v = em.compute_log_likelihood(sig_free.copy(), ybar[:, np.newaxis].copy(), y[:, np.newaxis].copy())
+            case.close(col_v, want, rtol=1e-9, what='log-likelihood for outputs and observations given as (n, 1) columns')
+            col_l = em.compute_log_likelihood(sig_free.copy(), [[float(v)] for v in ybar], [[float(v)] for v in y])
+            case.close(col_l, want, rtol=1e-9, what='log-likelihood for outputs and observations given as lists of one-element '
+                                                    'lists')
             sc0, se0 = em.compute_sensitivities(sig_free.copy(), ybar.copy(), S.copy(), y.copy())
             for (label, a_S) in fs_S:
                 ro = [f[0][1] for f in (fs_sig, fs_yb, fs_y)]
